@@ -106,6 +106,17 @@ def check_stored_is_instance_output(ctx, conf) -> None:
                "since the last store (a DoWhile iteration instantiated after a restart with updateInstanceFiles=False, patched "
                "variables) never reaches flowir_instance.yaml, and the next reload lacks those components without any error" % what,
                construct="all normal exits of store_unreplicated_flowir_to_disk pass: %s" % what)
+    # .. and a failure of the store is REPORTED: a handler of the function does not end in a normal return (the caller - the new loop
+    # iteration, parametrize() - must learn that the directory is stale; '_generate_instance_files' records what the store raises)
+    for h in [n for n in cfg.nodes if n.kind == "handler"]:
+        r_ = cfg.reach([h], blocked=pub_nodes, ignore_labels=("exc", "raise", "uncaught"))
+        ok = cfg.exit.id not in r_
+        ctx.ob("C07.R9-store-always-writes", h.ast, ok,
+               "this handler of the store re-raises" if ok else
+               "a handler of store_unreplicated_flowir_to_disk can end in a normal return without the description having been published: an I/O error while "
+               "a new loop iteration is stored (disk full, quota, stale handle) is swallowed, the experiment carries on with iteration k in memory "
+               "while the directory still describes 0..k-1, and a reload gets fewer components",
+               construct="store_unreplicated_flowir_to_disk: handler at %s re-raises" % (short(h.ast.type, 30) if h.ast.type is not None else "bare except"))
     for d in dumps:
         obj = d.args[0] if d.args else None
         chain = []
